@@ -862,7 +862,12 @@ class Gen:
             if rnd.random() < 0.4:
                 x = ["call", "add", [x, self.lit()], {}, {}]
             guarded = ["catch", json.loads(json.dumps(x)), [[["Exception"], "recov_const"]]]
-            items = [guarded, json.loads(json.dumps(x))]
+            bare = json.loads(json.dumps(x))
+            if x[0] == "call" and x[1] == "fail" and self.ok("deep_fail") and rnd.random() < 0.5:
+                # the equal failing call made from beneath another parent job (a different expression): its failure is
+                # then looked up among the results of this execution instead of being collapsed onto the first expression
+                bare = ["call", "deep_fail", [["val", 0], x[2][0], x[2][1]], {}, {}]
+            items = [guarded, bare]
             if rnd.random() < 0.5:
                 items.reverse()
             return ["seq", items] if rnd.random() < 0.5 else ["call", "mklist", items, {}, {}]
